@@ -81,8 +81,8 @@ CLAIMED = {
     },
     "C16": {
         "technique": "extraction of the normaliser's switch statements as a finite table and exhaustive evaluation of that table over its own constants plus one unknown value per field; dominance check that the comparator's platform is normalised before it is stored",
-        "text": "Only the normal-form sentence of the property (and one ordering fact) is decided: the alias table extracted from (*Platform).normalize maps every documented alias to its canonical value; normalising twice equals normalising once for all 12167 tuples over the table's constants and an unknown value per field (unknown values are only compared, never rewritten, so this covers all strings); every architecture case of the table is accepted by the arch-only parser; NewCompare stores the host platform only after normalize() ran on it.",
-        "note": "NOT decided: that the chosen entry is runnable, that an exact match wins, that the preference is a strict order independent of list order (values of Compatible/Better over a cross product; seeded change C16-1 is not detected). These clauses are not applicable to static analysis without copying the functions.",
+        "text": "The normal-form sentence of the property and shape conditions of the selection are decided: the alias table extracted from (*Platform).normalize maps every documented alias to its canonical value; normalising twice equals normalising once for all 12167 tuples over the table's constants and an unknown value per field (unknown values are only compared, never rewritten, so this covers all strings); every architecture case of the table is accepted by the arch-only parser; NewCompare stores the host platform only after normalize() ran on it.",
+        "note": "NOT decided: that the chosen entry is runnable, that an exact match wins, that the preference is a strict order (values of Compatible/Better over a cross product). These clauses are not applicable to static analysis without copying the functions; of order independence only the necessary shape (whole list scanned, consistent best-so-far) is decided. Seeded change C16-3 (lossy cache key) is not detected.",
         "design": "DESIGN.md §3 C16",
     },
     "C04": {
@@ -173,6 +173,27 @@ ADD = {
             " Also: the runner does not cancel the context shared by the scripts on one script's failure."),
 }
 for _pid, (_t, _x) in ADD.items():
+    CLAIMED[_pid]["technique"] += _t
+    CLAIMED[_pid]["text"] += _x
+
+# third set of additions (rules written after re-reading the seeded changes that were still missed, and D17)
+ADD3 = {
+    "C01": ("; compositional path enumeration through error-returning helpers; consumer audit of the verifying chain (per-path return resolution with identity guards)",
+            " Also: helpers of Read on an EOF path are expanded into their ways; any other function that drains the verifying chain runs the same comparisons on every path on which the read did not fail and returns their result unless it is identical to io.EOF or nil."),
+    "C05": ("; must-reach of the fall-back (reachability with rewind-only branches removed)",
+            " Also: after a failed single PUT no return is reachable without the chunked upload except over a branch that concerns only whether the source can be rewound (or a cancelled context)."),
+    "C09": ("; constant-index audit of the Docker manifest list next to its selection loop",
+            " Also: in the function that selects a manifest.json entry by name, no other read of the list is indexed by a constant."),
+    "C15": ("; re-parse reachability from the parser's error edge",
+            " Also: for every call of a reference parser in the module, no parser call with the same argument is reachable from its error edge (a refused input is not re-read under the host grammar)."),
+    "C16": ("; loop-exit audit and phi-web shape check of the selection fold",
+            " Also: the loop that folds Better over the list is left only at exhaustion; the previous platform is the loop-carried value, updated to the candidate exactly on Better's true edge together with the kept entry."),
+    "C17": ("; search-key audit of the cancel path",
+            " Also: a cancelled waiter looks itself up by the address of its own wake-up channel, never by the address of a possibly zero-size entry (D17, fixed)."),
+    "C18": ("; ownership audit of the filtered listing (value origins through package helpers); raw-page audit of the catalog pager",
+            " Also: the in-place allow/deny filter is only handed listings nobody else holds; the pager's exit tests and marker are computed from the page the registry sent, not from the filter's result."),
+}
+for _pid, (_t, _x) in ADD3.items():
     CLAIMED[_pid]["technique"] += _t
     CLAIMED[_pid]["text"] += _x
 
